@@ -48,7 +48,7 @@ PAIRS = [
     ('RXTimingSetupReqCreator', 'set_delay', 'RXTimingSetupReqPayload', 'delay', 'u', 0, 0, 4),
     ('TXParamSetupReqCreator', 'set_downlink_dwell_time', 'TXParamSetupReqPayload', 'downlink_dwell_time', 'b', 0, 5, 1),
     ('TXParamSetupReqCreator', 'set_uplink_dwell_time', 'TXParamSetupReqPayload', 'uplink_dwell_time', 'b', 0, 4, 1),
-    ('TXParamSetupReqCreator', 'set_max_eirp', 'TXParamSetupReqPayload', 'max_eirp', 'u', 0, 0, 4),
+    ('TXParamSetupReqCreator', 'set_max_eirp', 'TXParamSetupReqPayload', 'max_eirp', 'coded', 0, 0, 4),
     ('DlChannelReqCreator', 'set_channel_index', 'DlChannelReqPayload', 'channel_index', 'u', 0, 0, 8),
     ('DlChannelReqCreator', 'set_frequency', 'DlChannelReqPayload', 'frequency', 'bytes', 1, 0, 24),
     ('DlChannelAnsCreator', 'set_channel_frequency_ack', 'DlChannelAnsPayload', 'channel_freq_ack', 'b', 0, 0, 1),
@@ -56,6 +56,10 @@ PAIRS = [
     ('DeviceTimeAnsCreator', 'set_seconds', 'DeviceTimeAnsPayload', 'seconds', 'u', 0, 0, 32),
 ]
 NOT_JUDGED = {'DeviceTimeAnsCreator::set_nano_seconds': 'lossy by design (nanoseconds quantised to 1/256 s)'}
+# RFU bits of the byte that a setter may also clear (written as constant 0): (payload byte, bit)
+RFU = {('DevStatusAnsCreator', 'set_margin'): {(1, 6), (1, 7)}}
+# the LoRaWAN coding of MaxEIRP (TXParamSetupReq): the builder takes the coded index, the parser returns dBm
+EIRP_DBM = [8, 10, 12, 13, 14, 16, 18, 20, 21, 24, 26, 27, 29, 30, 33, 36]
 
 
 def find_body(prog, suffix):
@@ -158,6 +162,14 @@ def run(tier):
                     changed.add((i, k))
         nbytes = (lsb + width + 7) // 8
         want = {(1 + byte + (lsb + j) // 8, (lsb + j) % 8) for j in range(width)}
+        rfu = {(1 + b_, k_) for (b_, k_) in RFU.get((creator, setter), set())}
+        extra = changed - want
+        rfu_ok = True
+        for (i_, k_) in extra & rfu:
+            lin_ = an.as_int(els[i_], st)
+            rfu_ok = rfu_ok and lin_ is not None and bv.lin_bits(lin_, 'u8')[k_] == 0
+        if rfu_ok:
+            changed = changed - rfu
         res.require(changed == want, 'C19:%s:frame' % name, '%s changes buffer bits %s, the command table says %s (byte.bit, CID at byte 0)' % (
             name, sorted(changed ^ want)[:8], 'payload byte %d bits %d..%d' % (byte, lsb, lsb + width - 1)), sb.path, 'FRAME(setter writes exactly its field)',
             instance='%s writes exactly payload byte %d bits %d..%d' % (name, byte, lsb, lsb + width - 1))
@@ -196,7 +208,7 @@ def run(tier):
                     got[val] = 'setter'
                     continue
                 ab, rv = comp.run_accessor(an2, oks2[0], els2, payload, accessor)
-                got[val] = rv[1][1] if rv is not None and rv[0] == 'bool' and rv[1][0] == 'const' else str(rv)[:60]
+                got[val] = _decide_bool(an2, oks2[0], rv)
             res.require(got == {False: False, True: True}, 'C19:%s:agree' % name, '%s(%s(b)) for b = false, true gives %s' % (accessor, setter, got), sb.path,
                         'AGREE(partition over the flag)', instance='%s: %s() returns the flag set' % (name, accessor))
         elif kind == 'e':
@@ -223,6 +235,19 @@ def run(tier):
                 trunc_ok = False
             res.require(not oks3 or trunc_ok, 'C19:%s:out-of-range' % name, '%s accepts %d, which does not fit the %d-bit field' % (name, 1 << width, width), sb.path,
                         'REFUSE(out of range)', instance='%s refuses values that do not fit' % name)
+        elif kind == 'coded':
+            got = {}
+            for val in range(1 << width):
+                an2, fr2, sb2, oks2, errs2 = comp.run_setter(creator, setter, arg=('int', Lin.const(val)))
+                els2 = comp.data_of(an2, fr2, oks2[0]) if len(oks2) == 1 else None
+                if els2 is None:
+                    got[val] = 'refused'
+                    continue
+                ab, rv = comp.run_accessor(an2, oks2[0], els2, payload, accessor)
+                lo_, hi_ = (oks2[0].lb(rv[1]), oks2[0].ub(rv[1])) if rv is not None and rv[0] == 'int' else (None, None)
+                got[val] = lo_ if lo_ == hi_ else str(rv)[:40]
+            res.require([got.get(v) for v in range(1 << width)] == EIRP_DBM, 'C19:%s:agree' % name, '%s(%s(code)) over the 16 codes gives %s (LoRaWAN MaxEIRP table: %s)' % (accessor, setter, got, EIRP_DBM), sb.path,
+                        'AGREE(partition over the 16 codes, decoded through the specification table)', instance='%s: %s() decodes each of the 16 codes per the MaxEIRP table' % (name, accessor))
         elif kind in ('raw', 'bytes'):
             # the argument is a wrapper (Into<T>): the bytes stored come, in order, from one source object; the accessor hands back a wrapper over exactly those payload bytes
             srcs = []
@@ -282,8 +307,12 @@ def _wrapped_bytes(an, st, rv, n):
         return None
     v = rv
     for _ in range(4):
-        if v[0] == 'adt' and v[1] in ('core::result::Result', 'core::option::Option') and v[2] is not None and len(v[2]) == 1:
-            v = an.field_of(v, next(iter(v[2])), '0', st, None)
+        if v[0] == 'adt' and v[1] == 'core::result::Result':
+            # a validating accessor (e.g. min <= max): the successful result wraps the bytes
+            v = an.field_of(v, 0, '0', st, None)
+            continue
+        if v[0] == 'adt' and v[1] == 'core::option::Option':
+            v = an.field_of(v, 1, '0', st, None)
             continue
         if v[0] == 'adt' and v[2] == frozenset([0]) and (0, '0') in v[3]:
             v = v[3][(0, '0')]
@@ -302,3 +331,19 @@ def _wrapped_bytes(an, st, rv, n):
     if v[0] == 'array' and v[1] == n:
         return [an.as_int(v[2].get(j, v[3]), st) if v[2].get(j, v[3]) is not None else None for j in range(n)]
     return None
+
+
+def _decide_bool(an, st, rv):
+    """truth value of a boolean result through the bit view, or a description when undecided"""
+    if rv is None or rv[0] != 'bool':
+        return str(rv)[:60]
+    cnd = rv[1]
+    if cnd[0] == 'const':
+        return bool(cnd[1])
+    if cnd[0] == 'cmp' and cnd[1] in ('Ne', 'Eq') and cnd[3].is_const() and cnd[3].k == 0:
+        bl = bits.BitView(an, st).lin_bits(cnd[2], 'u8')
+        if any(b_ == 1 for b_ in bl):
+            return cnd[1] == 'Ne'
+        if all(b_ == 0 for b_ in bl):
+            return cnd[1] == 'Eq'
+    return str(rv)[:60]
